@@ -149,21 +149,26 @@ Lemma w_added_twice_queue :
   queue_times (state_after w_added_twice_ifs w_added_twice_its 5) = [].
 Proof. repeat split; vm_compute; reflexivity. Qed.
 
-(* REFUTATION: "after the unregister (and the repeat) nothing of the service remains in the
-   registry" is false.  unregister removes the service from the service map only; the interface's
-   registry keeps its probes and active records: here the service is unregistered (OK) after its
-   second probe, the third probe query still goes out at +645 ms, at +895 ms both names become
-   active although no service is registered, and the re-registration at +3000 ms is announced at
-   once, without probing. *)
-Lemma w_unreg_probing_refutes :
+(* formerly a refutation (round 4), now holding (fix d685fcf): the service is unregistered (OK) after its
+   second probe; the registry forgets the instance name at once - only the host-name probe is left
+   (n_host), the third probe query at +645 ms is for the host name only, at +895 ms the host name
+   alone becomes active; the re-registration at +3000 ms is probed three times anew and announced
+   twice *)
+Definition n_host : bytes := [104; 46; 108; 111; 99; 97; 108; 46].        (* "h.local." *)
+Definition reg_shape (st : dstate) : list (list bytes * list bytes * list (bytes * bytes)) :=
+  map (fun kr => (map fst (rg_probing (snd kr)), map fst (rg_active (snd kr)), rg_changes (snd kr))) (d_regs st).
+Lemma w_unreg_probing_forgets :
+  reg_shape (state_after w_unreg_probing_ifs w_unreg_probing_its 3) = [([n_inst; n_host], [], [])] /\
   d_svcs (state_after w_unreg_probing_ifs w_unreg_probing_its 4) = [] /\
-  map (fun kr => (length (rg_probing (snd kr)), length (rg_active (snd kr)))) (d_regs (state_after w_unreg_probing_ifs w_unreg_probing_its 4)) = [(2, 0)]%nat /\
-  d_svcs (state_after w_unreg_probing_ifs w_unreg_probing_its 6) = [] /\
-  queue_times (state_after w_unreg_probing_ifs w_unreg_probing_its 6) = [] /\
-  map (fun kr => (length (rg_probing (snd kr)), length (rg_active (snd kr)))) (d_regs (state_after w_unreg_probing_ifs w_unreg_probing_its 6)) = [(0, 2)]%nat /\
+  reg_shape (state_after w_unreg_probing_ifs w_unreg_probing_its 4) = [([n_host], [], [])] /\
+  reg_shape (state_after w_unreg_probing_ifs w_unreg_probing_its 6) = [([], [n_host], [])] /\
+  wire_probe_times 2 n_inst (d_init w_unreg_probing_ifs) w_unreg_probing_its
+  = [1000145; 1000395; 1003079; 1003329; 1003579] /\
+  wire_probe_times 2 n_host (d_init w_unreg_probing_ifs) w_unreg_probing_its = [1000145; 1000395; 1000645] /\
   busy (timeline w_unreg_probing_ifs w_unreg_probing_its) =
   [ (1000145, true, false, false); (1000395, true, false, false); (1000645, true, false, false);
-    (1003000, false, true, false); (1004000, false, true, false) ] /\
+    (1003079, true, false, false); (1003329, true, false, false); (1003579, true, false, false);
+    (1003829, false, true, false); (1004829, false, true, false) ] /\
   self9 w_unreg_probing_ifs w_unreg_probing_its = [] /\ self7 w_unreg_probing_ifs w_unreg_probing_its = [].
 Proof. repeat split; vm_compute; reflexivity. Qed.
 
